@@ -10,7 +10,9 @@
    are the oracle of Spec/ClientCodecSpec.v. Value vectors are unbounded lists. *)
 From Coq Require Import NArith List Arith.
 From Rodbus Require Import Base.Outcome Base.ClientTypes Model.Format Model.Range Model.ClientRequest
-  Spec.ClientCodecSpec Proofs.ClientCodecProofs Proofs.PackProofs Proofs.ClientBytesProofs.
+  Model.ClientPaths Model.ClientSession Spec.ClientCodecSpec Proofs.ClientCodecProofs Proofs.PackProofs Proofs.ClientBytesProofs
+  Proofs.ClientPathsProofs Proofs.ClientSessionProofs.
+From Rodbus Require Model.ClientTask Spec.ClientSpec.
 Import ListNotations.
 Local Open Scope N_scope.
 
@@ -58,6 +60,108 @@ Print Assumptions C03_bytes.
 Theorem C03_total : forall f tx uid c, call_wf c -> client_submit f tx uid c <> Panic.
 Proof. exact submit_total. Qed.
 Print Assumptions C03_total.
+
+(* ---- the three submit paths (Model/ClientPaths.v): async Channel, deprecated CallbackSession,
+   FfiChannel (the C bindings). For every call they queue the SAME request - or all reject -, so
+   the bytes on the wire are those of `client_submit` whichever API is used; all theorems above
+   therefore hold for each path. ---- *)
+Theorem C03_paths_agree : forall p q f tx uid c,
+  path_encode p f tx uid c = path_encode q f tx uid c /\ path_wire p f tx uid c = path_wire q f tx uid c.
+Proof. exact paths_agree. Qed.
+Print Assumptions C03_paths_agree.
+
+Theorem C03_path_wire : forall p f tx uid c, path_wire p f tx uid c = submit_wire f tx uid c.
+Proof. exact path_wire_spec. Qed.
+Print Assumptions C03_path_wire.
+
+(* what each path does with a call: queue exactly the request `build` constructs, or - exactly when
+   `build` fails with e - signal the rejection as the code does (rejection_of, below) *)
+Theorem C03_path_submit : forall p c,
+  submit_via p c = match build c with
+                   | Ok r => Queued r
+                   | Err e => Rejected (rejection_of p c e)
+                   | Panic => Rejected {| rj_returned := None; rj_completion := None |}
+                   end.
+Proof. exact submit_via_spec. Qed.
+Print Assumptions C03_path_submit.
+
+(* The rejection signals, stated as what the code does: the error is returned by the call
+   (Channel: as the value of the future; Ffi: as FfiChannelError::BadRange; WriteMultiple::from) or
+   handed to the callback (CallbackSession reads). Two asymmetries of FfiChannel: read_bits checks
+   the range BEFORE it builds its promise, so the completion callback of a rejected read_coils /
+   read_discrete_inputs is never invoked (the only signal is the return value); read_registers
+   builds the promise first, so a rejected call returns the error AND its dropped promise invokes
+   the callback with Shutdown. *)
+Theorem C03_rejection_signals : forall p c e,
+  rejection_of p c e =
+  match c with
+  | CReadCoils _ _ | CReadDiscreteInputs _ _ =>
+      match p with
+      | ViaChannel | ViaFfi => {| rj_returned := Some e; rj_completion := None |}
+      | ViaCallback => {| rj_returned := None; rj_completion := Some (CErr e) |}
+      end
+  | CReadHoldingRegisters _ _ | CReadInputRegisters _ _ =>
+      match p with
+      | ViaChannel => {| rj_returned := Some e; rj_completion := None |}
+      | ViaCallback => {| rj_returned := None; rj_completion := Some (CErr e) |}
+      | ViaFfi => {| rj_returned := Some e; rj_completion := Some CShutdown |}
+      end
+  | _ => {| rj_returned := Some e; rj_completion := None |}
+  end.
+Proof. reflexivity. Qed.
+Print Assumptions C03_rejection_signals.
+
+Example C03_ffi_read_coils_rejection_has_no_callback :
+  submit_via ViaFfi (CReadCoils 0 2001) = Rejected {| rj_returned := Some ECountTooLargeForType; rj_completion := None |}.
+Proof. vm_compute. reflexivity. Qed.
+Example C03_ffi_read_registers_rejection_calls_back_with_shutdown :
+  submit_via ViaFfi (CReadHoldingRegisters 0 126) = Rejected {| rj_returned := Some ECountTooLargeForType; rj_completion := Some CShutdown |}.
+Proof. vm_compute. reflexivity. Qed.
+
+(* ---- C03 over a whole session (Model/ClientSession.v): calls executed one after the other on a
+   connected, enabled channel, through any mix of the three APIs. The wire log is the Spec's
+   ref_session_wire: exactly the frames of the calls within the limits, in order; the i-th request
+   that REACHES THE TASK carries transaction id i mod 65536. What the code does with ids: the task
+   takes the id (TxId::next) before it formats the frame, so a write-multiple request that could be
+   constructed but exceeds its function's limit consumes an id although nothing is sent
+   (Spec reaches_task); a call rejected by the API before queueing consumes none. The counter is
+   the task model's (C11_txid: the k-th request taken from the queue is stamped k mod 65536). ---- *)
+Theorem C03_session_wire : forall f calls, Forall (fun x => call_wf (snd x)) calls ->
+  session_wire f 0 calls = ref_session_wire (is_tcp f) 0 (strip calls).
+Proof. exact session_wire_from_start. Qed.
+Print Assumptions C03_session_wire.
+
+(* ... from any point of a session on (k requests have reached the task before), without bound on k *)
+Theorem C03_session_wire_from : forall f calls k, Forall (fun x => call_wf (snd x)) calls ->
+  session_wire f (k mod 65536) calls = ref_session_wire (is_tcp f) k (strip calls).
+Proof. exact session_wire_ref. Qed.
+Print Assumptions C03_session_wire_from.
+
+Theorem C03_session_ids : forall k,
+  ClientTask.txid_next (k mod 65536) = ((k + 1) mod 65536, ClientSpec.txid_spec k).
+Proof. exact txid_next_mod. Qed.
+Print Assumptions C03_session_ids.
+
+(* a call reaches the task (and takes an id) iff its request can be constructed *)
+Theorem C03_reaches_task : forall c, call_wf c ->
+  match build c with Ok _ => reaches_task c = true | Err _ => reaches_task c = false | Panic => False end.
+Proof. exact build_reaches. Qed.
+Print Assumptions C03_reaches_task.
+
+(* which API submits each call does not matter for the wire log *)
+Theorem C03_session_paths : forall f calls calls' v,
+  map (fun x => (snd (fst x), snd x)) calls = map (fun x => (snd (fst x), snd x)) calls' ->
+  session_wire f v calls = session_wire f v calls'.
+Proof. exact session_wire_paths. Qed.
+Print Assumptions C03_session_paths.
+
+(* non-vacuity: read (id 0), 1969 coils (constructible, over the limit: takes id 1, nothing sent),
+   2001 coils read via FfiChannel (rejected before queueing: no id), read via callback API (id 2) *)
+Example C03_session_example :
+  session_wire Tcp 0 [(ViaChannel, 1, CReadHoldingRegisters 16 2); (ViaChannel, 1, CWriteMultipleCoils 0 (repeat true 1969));
+                      (ViaFfi, 1, CReadCoils 0 2001); (ViaCallback, 9, CReadCoils 7 3)]
+  = [[0;0; 0;0; 0;6; 1; 3; 0;16; 0;2]; [0;2; 0;0; 0;6; 9; 1; 0;7; 0;3]].
+Proof. vm_compute. reflexivity. Qed.
 
 (* The Spec's coil packing, stated bitwise: coil k is bit (k mod 8) of byte (k / 8) - LSB first -,
    every padding bit is 0 (k beyond the vector reads `false`), and there are ceil(n/8) bytes. *)
